@@ -1,7 +1,7 @@
 #!/bin/sh
 # dev helper: explore one cube.  usage: T=secs K='["key"]' tools/one.sh module harness cubeidx tier
 cd /verif; OUT=$(mktemp /tmp/one.XXXXXX.json)
-PYTHONPATH=/verif:/repo timeout ${T:-300} .venv/bin/python -m vf.worker $1 $2 $3 $4 $OUT "${K:-[]}"
+PYTHONPATH=/verif:${VERIF_REPO:-/repo} timeout ${T:-300} .venv/bin/python -m vf.worker $1 $2 $3 $4 $OUT "${K:-[]}"
 python3 - <<PY
 import json; d=json.load(open('$OUT'))
 print(d.get('crash'))
